@@ -1,11 +1,13 @@
 #!/bin/sh
-# usage: try_mutant.sh <patchfile> <prop> [tier]   -- applies a patch to /repo, runs the check, reverts. prints exit code
+# usage: try_mutant.sh <patchfile> <prop> [tier]
+# Applies a patch to a scratch copy of /repo/src (so that other users of /repo are not disturbed), runs the check with
+# VERIF_REPO_SRC pointing at it, removes the copy and prints the exit code.
 patch="$1"; prop="$2"; tier="${3:-quick}"
-cd /repo || exit 2
-git diff --quiet || { echo "repo dirty"; exit 2; }
-git apply "$patch" || { echo "patch does not apply"; exit 2; }
-cd /verif && ./run_check.sh "$prop" "$tier" > /tmp/mutant_$prop.log 2>&1
+d=$(mktemp -d /tmp/verif_mut_XXXXXX)
+git -C /repo archive HEAD src | tar -x -C "$d" || exit 2
+( cd "$d" && patch -p1 -s < "$patch" ) || { echo "patch does not apply"; rm -rf "$d"; exit 2; }
+cd /verif && VERIF_REPO_SRC="$d/src" ./run_check.sh "$prop" "$tier" > /tmp/mutant_$prop.log 2>&1
 rc=$?
-cd /repo && git checkout -- . 
+rm -rf "$d"
 echo "mutant $(basename $patch) on $prop -> exit $rc; $(grep -c '^VIOLATION' /tmp/mutant_$prop.log) violation lines; $(grep 'clause=' /tmp/mutant_$prop.log | head -1 | cut -c1-160)"
 exit 0
